@@ -831,6 +831,13 @@ static int parse_data(vnacal_load_state_t *vlsp, const vnacal_layout_t *vlp,
 		*item);
 	double frequency = -1.0;
 
+	if (child->type != YAML_MAPPING_NODE) {
+	    _vnacal_error(vcp, VNAERR_SYNTAX,
+		    "%s (line %ld) error: expected mapping for \"data\" entry",
+		    vcp->vc_filename, child->start_mark.line + 1);
+	    return -1;
+	}
+	(void)memset((void *)matrices, 0, sizeof(matrices));
 	for (pair = child->data.mapping.pairs.start;
 	     pair < child->data.mapping.pairs.top; ++pair) {
 	    yaml_node_t *key, *value;
@@ -972,13 +979,13 @@ static int parse_data(vnacal_load_state_t *vlsp, const vnacal_layout_t *vlp,
 	/*
 	 * Make sure we have the frequency and that it's ascending.
 	 */
-	if (frequency < 0.0) {
+	if (!(frequency >= 0.0)) {	/* missing, negative or NaN */
 	    _vnacal_error(vcp, VNAERR_SYNTAX,
 		    "%s (line %ld) error: missing required field \"f\"",
 		    vcp->vc_filename, child->start_mark.line + 1);
 	    return -1;
 	}
-	if (findex > 1 &&
+	if (findex > 0 &&
 		frequency <= calp->cal_frequency_vector[findex - 1]) {
 	    _vnacal_error(vcp, VNAERR_SYNTAX,
 		    "%s (line %ld) error: frequencies are not in "
